@@ -65,7 +65,7 @@ SECTOR = 2048
 _MAX_DEPTH = 200          # directory nesting guard
 _MAX_VDS = 200            # volume descriptor set length guard
 _JOLIET_ESC = (b'%/@', b'%/C', b'%/E')
-_SUBSECTOR_KINDS = ('ce',)
+_SUBSECTOR_KINDS = ('ce', 'pad', 'gpt-backup-parts', 'gpt-backup-header')
 
 
 class Malformed(Exception):
@@ -425,15 +425,18 @@ class _Reader(object):
                       % (img[r], img[r + 25], img[r + 32]), r)
 
     # -- directory records --------------------------------------------------------------------
-    def parse_record(self, off, ns, limit):
+    def parse_record(self, off, ns, limit, is_root=False):
         """Decode one directory record at byte offset off (at most limit bytes available)."""
         img = self.img
         n = Node()
         n.dr_offset = off
         n.dr_len = dr_len = img[off]
+        len_fi = img[off + 32]
+        if is_root:
+            # the 34-byte root record inside a volume descriptor (already checked: root-record-bad)
+            dr_len, len_fi = 34, 1
         if dr_len < 34 or dr_len > limit:
             self.fail('dr-length-inconsistent', 'record length %d (space left %d)' % (dr_len, limit), off, fatal=True)
-        len_fi = img[off + 32]
         pad = 1 - (len_fi & 1)
         if len_fi == 0 or 33 + len_fi + pad > dr_len:
             self.fail('dr-length-inconsistent', 'record length %d but identifier length %d' % (dr_len, len_fi), off, fatal=True)
@@ -489,8 +492,8 @@ class _Reader(object):
                           % (block, offset, ln), n.dr_offset)
                 break
             base = block * SECTOR + offset
-            if base + ln > len(self.img) or (self.vol_limit is not None and base + ln > self.vol_limit):
-                self.fail('ce-out-of-volume', 'continuation area block %d lies outside the volume' % block, n.dr_offset)
+            if base + ln > len(self.img):
+                self.fail('ce-out-of-volume', 'continuation area block %d lies outside the image' % block, n.dr_offset)
                 break
             rr.ce.append((block, offset, ln))
             owner = self.ce_owner.setdefault((block, offset, ln), n.dr_offset)
@@ -660,7 +663,7 @@ class _Reader(object):
             self.fail('beyond-volume-size', '%s volume space size %d blocks exceeds the image (%d bytes)'
                       % (ns, vd['space_size'], len(self.img)), vd['sector'] * SECTOR + 80)
             self.vol_limit = len(self.img)
-        root = self.parse_record(vd['root_record_offset'], ns, 34)
+        root = self.parse_record(vd['root_record_offset'], ns, 34, is_root=True)
         root.name = b'' if ns != 'joliet' else ''
         root._path = '/'
         # SUSP detection: root '.' starts with SP at system-use offset 0 (14 behind an XA record)
